@@ -46,13 +46,14 @@ struct PAgent {
 		switch(t) {
 		case 'c': case 'p': case 's': frg::do_printf_chars(*sink, t, opts, szmod, vsp); break;
 		case 'd': case 'i': case 'o': case 'x': case 'X': case 'b': case 'B': case 'u': frg::do_printf_ints(*sink, t, opts, szmod, vsp); break;
+		case 'f': case 'F': case 'g': case 'G': case 'e': case 'E': frg::do_printf_floats(*sink, t, opts, szmod, vsp); break;
 		default: break;   // not a conversion this agent implements: consumes nothing
 		}
 		return frg::success;
 	}
 };
 // Reference tokenizer of the directive grammar: how many argument slots may the format consume at most?
-struct Need { size_t sequential = 0; size_t maxpos = 0, maxnamed = 0; bool positional = false, mixed = false; };
+struct Need { size_t sequential = 0; size_t maxpos = 0, maxnamed = 0; bool positional = false, mixed = false; size_t pads = 0; bool inexact = false; };
 static Need tokenize(const std::string &f) {
 	Need n; size_t i = 0;
 	auto isd = [](char c) { return c >= '0' && c <= '9'; };
@@ -71,11 +72,16 @@ static Need tokenize(const std::string &f) {
 		size_t stars = 0;
 		if(i < f.size() && f[i] == '*') { stars++; n.sequential++; i++; } else while(i < f.size() && isd(f[i])) i++;
 		if(i < f.size() && f[i] == '.') { i++; if(i < f.size() && f[i] == '*') { stars++; n.sequential++; i++; } else while(i < f.size() && isd(f[i])) i++; }
+		bool ldbl = false;
 		if(i < f.size() && f[i] == 'l') { i++; if(i < f.size() && f[i] == 'l') i++; }
-		else if(i < f.size() && (f[i] == 'z' || f[i] == 'L' || f[i] == 't' || f[i] == 'j')) i++;
+		else if(i < f.size() && f[i] == 'L') { ldbl = true; i++; }
+		else if(i < f.size() && (f[i] == 'z' || f[i] == 't' || f[i] == 'j')) i++;
 		else if(i < f.size() && f[i] == 'h') { i++; if(i < f.size() && f[i] == 'h') i++; }
 		if(i >= f.size()) break;
-		bool consumes = strchr("diouxXbBcsp", f[i]) != nullptr;
+		bool consumes = strchr("diouxXbBcspfFeEgG", f[i]) != nullptr;
+		// a floating conversion entitles the callee to one double (8 bytes) or, with L, to one long double (16 bytes after
+		// alignment padding); frigg's %e/%g print a placeholder and fetch nothing, which is fewer, not more
+		if(strchr("fFeEgG", f[i])) { if(ldbl) { n.sequential++; n.pads++; n.inexact = true; } if(strchr("eEgG", f[i])) n.inexact = true; }
 		i++;
 		if(pos && here == 0) { n.positional = true; n.mixed = true; n.sequential += (consumes ? 1 : 0); }   // "%0$d": not a valid position; frigg fetches the next argument
 		else if(pos) { n.positional = true; if(consumes && here > n.maxpos) n.maxpos = here; if(here > n.maxnamed) n.maxnamed = here; }
@@ -85,12 +91,22 @@ static Need tokenize(const std::string &f) {
 	if(n.positional && n.sequential) n.mixed = true;
 	return n;
 }
+static void run_printf_case1(const std::string &f, GuardBuf &gfmt, GuardBuf &gslots, uint64_t fill);
 static void run_printf_case(const std::string &f, GuardBuf &gfmt, GuardBuf &gslots) {
+	run_printf_case1(f, gfmt, gslots, universal_arg());
+	if(f.find('*') == std::string::npos || true) run_printf_case1(f, gfmt, gslots, 0);   // null strings, zero widths/precisions, 0.0
+}
+static void run_printf_case1(const std::string &f, GuardBuf &gfmt, GuardBuf &gslots, uint64_t fill) {
 	Need need = tokenize(f);
-	size_t allowed = need.sequential + need.maxnamed;   // a directive that names position n entitles the callee to n arguments
-	std::vector<uint64_t> slots(allowed, universal_arg());
+	size_t allowed = need.sequential + need.maxnamed + need.pads;   // a directive that names position n entitles the callee to n arguments
+	std::vector<uint64_t> slots(allowed, fill);
 	uint64_t *area = gslots.place<uint64_t>(slots.data(), slots.size());
 	frg::va_struct vs; frg::arg arg_list[NL_ARGMAX + 1]; vs.arg_list = arg_list;
+	// frigg caches a positional argument in this array with the type of the directive that fetched it first. A format that
+	// uses one position with two types ("%1$*s": int, then char *) is invalid (POSIX: undefined) and re-reads the cache with
+	// the wider type; the array is pre-filled with the same universal value so that such a format still sees a valid argument
+	// and the enumeration stays deterministic (it used to depend on stale stack contents).
+	{ uint64_t *raw = reinterpret_cast<uint64_t *>(arg_list); for(size_t k = 0; k < sizeof arg_list / 8; k++) raw[k] = fill; }
 	// x86-64 SysV va_list: all register slots used up, so every va_arg comes from the overflow area
 	struct VaTag { unsigned gp_offset, fp_offset; void *overflow_arg_area, *reg_save_area; };
 	static_assert(sizeof(VaTag) == sizeof(va_list));
@@ -105,8 +121,8 @@ static void run_printf_case(const std::string &f, GuardBuf &gfmt, GuardBuf &gslo
 	size_t consumed = ((uint64_t *)tag->overflow_arg_area - area);
 	if(!sink.intact()) throw Violation{"C20", "printf:sink-canary", "memory next to the sink was overwritten"};
 	if(consumed > allowed) throw Violation{"C20", "printf:va-overrun", "consumed " + std::to_string(consumed) + " variadic slots, the directives account for at most " + std::to_string(allowed)};
-	if(!panicked && !need.positional && consumed != need.sequential) throw Violation{"C20", "printf:va-count", "consumed " + std::to_string(consumed) + " variadic slots, the directives consume " + std::to_string(need.sequential)};
-	if(!panicked && need.positional && !need.mixed && consumed != need.maxpos) throw Violation{"C20", "printf:va-count-positional", "consumed " + std::to_string(consumed) + " variadic slots for a highest position of " + std::to_string(need.maxpos)};
+	if(!panicked && !need.positional && !need.inexact && consumed != need.sequential) throw Violation{"C20", "printf:va-count", "consumed " + std::to_string(consumed) + " variadic slots, the directives consume " + std::to_string(need.sequential)};
+	if(!panicked && need.positional && !need.mixed && !need.inexact && consumed != need.maxpos) throw Violation{"C20", "printf:va-count-positional", "consumed " + std::to_string(consumed) + " variadic slots for a highest position of " + std::to_string(need.maxpos)};
 }
 static InstResult run_printf(const std::vector<CrashInfo> &cr, size_t L, int shard, int nshards) {
 	Enumerator E("printf-parse-" + std::to_string(shard), "C20", cr);
@@ -122,6 +138,20 @@ static InstResult run_printf(const std::vector<CrashInfo> &cr, size_t L, int sha
 			E.eval("printf " + printable(f), "printf.parse", [&] { run_printf_case(f, gfmt, gslots); });
 		});
 	});
+	// second alphabet: the conversions and length modifiers the first one leaves out (floating point, L, j, t, o, u, i, X,
+	// b, n, the ' flag), without positions (a positional directive fetches all lower positions with its own type by design)
+	{
+		const std::string alpha2 = "%fFegLjtouXibn'.*1lh#";
+		size_t L2 = L >= 6 ? 5 : 4, idx2 = 0;
+		for_all_strings(alpha2, 2, [&](const std::string &pre) {
+			if(pre.size() < 2) return;
+			if((idx2++ % nshards) != (size_t)shard) return;
+			for_all_strings(alpha2, L2 - 2, [&](const std::string &rest) {
+				std::string f = pre + rest;
+				E.eval("printf " + printable(f), "printf.parse-float-alphabet", [&] { run_printf_case(f, gfmt, gslots); });
+			});
+		});
+	}
 	if(shard == 0) {
 		// long digit runs at every numeric position (int overflow in the accumulators)
 		std::vector<std::string> runs;
@@ -235,6 +265,35 @@ static InstResult run_tonumber(const std::vector<CrashInfo> &cr, size_t L) {
 	return E.finish();
 }
 
+// Floating-point values through a real variadic call: every class of value (signed zero, subnormal, ordinary, the
+// largest value the integer part supports and the first one it does not, infinities, NaN) under every flag subset,
+// width and precision shape.  Floating conversions are outside C19's byte-for-byte claim; here only totality and
+// memory safety are checked (the assertion hook is a legal outcome).
+static void float_case(const char *format, ...) {
+	va_list args; va_start(args, format);
+	frg::va_struct vs; frg::arg arg_list[NL_ARGMAX + 1]; vs.arg_list = arg_list; va_copy(vs.args, args);
+	CountSink sink;
+	try { auto res = frg::printf_format(PAgent{&sink, &vs}, format, &vs); (void)res; } catch(const Panic &) { } catch(const CountSink::Flood &) { }
+	va_end(vs.args); va_end(args);
+	if(!sink.intact()) throw Violation{"C20", "printf:sink-canary", "memory next to the sink was overwritten"};
+}
+static InstResult run_float_values(const std::vector<CrashInfo> &cr) {
+	Enumerator E("printf-float-values", "C20", cr);
+	GuardBuf g;
+	const double vals[] = {0.0, -0.0, 4.9e-324, 1.0, -1.0, 0.5, -0.999999999, 1.2, 123456.789, -98765.4321, 1099511627775.5, 1099511627776.0, -1099511627776.0, 1e19, 1e300, -1e300,
+		__builtin_inf(), -__builtin_inf(), __builtin_nan(""), -__builtin_nan("")};
+	for(int fb = 0; fb < 64; fb++) for(const char *w : {"", "0", "1", "12", "40"}) for(const char *p : {"", ".", ".0", ".1", ".6", ".20", ".60"}) for(const char *cv : {"f", "F", "lf", "Lf", "LF", "e", "g", "Lg"}) {
+		std::string d = "%"; if(fb & 1) d += '-'; if(fb & 2) d += '+'; if(fb & 4) d += ' '; if(fb & 8) d += '#'; if(fb & 16) d += '0'; if(fb & 32) d += '\'';
+		d += w; d += p; d += cv; d = "<" + d + ">";
+		E.eval("printf " + d, "printf.float-values", [&] {
+			const char *fmt = g.place_cstr(d);
+			for(double v : vals) { if(cv[0] == 'L') float_case(fmt, (long double)v); else float_case(fmt, v); }
+			if(cv[0] == 'L') { float_case(fmt, 1.18973149535723176502e+4932L); float_case(fmt, 3.64519953188247460253e-4951L); }
+		});
+	}
+	return E.finish();
+}
+
 static std::vector<Instance> instances(const std::string &tier) {
 	bool th = tier == "thorough";
 	std::vector<Instance> v;
@@ -247,6 +306,7 @@ static std::vector<Instance> instances(const std::string &tier) {
 	for(int s = 0; s < NP; s++) add("printf-parse-" + std::to_string(s), [=](const std::vector<CrashInfo> &cr) { return run_printf(cr, th ? 6 : 5, s, NP); });
 	for(int s = 0; s < NF; s++) add("fmt-parse-" + std::to_string(s), [=](const std::vector<CrashInfo> &cr) { return run_fmt(cr, th ? 8 : 6, s, NF); });
 	for(int s = 0; s < NC; s++) add("cmdline-parse-" + std::to_string(s), [=](const std::vector<CrashInfo> &cr) { return run_cmdline(cr, th ? 8 : 7, s, NC); });
+	add("printf-float-values", [=](const std::vector<CrashInfo> &cr) { return run_float_values(cr); });
 	add("to_number-parse", [=](const std::vector<CrashInfo> &cr) { return run_tonumber(cr, th ? 8 : 6); });
 	return v;
 }
